@@ -2605,7 +2605,8 @@ bool BW_MidiSequencer::parseRSXX(FileAndMemReader &fr)
 
         size_t pos = fr.tell();
         fr.seek(0, FileAndMemReader::END);
-        trackLength = fr.tell() - pos;
+        // A file stream may have been positioned behind its end by an offset taken from the header
+        trackLength = (fr.tell() > pos) ? (fr.tell() - pos) : 0;
         fr.seek(static_cast<long>(pos), FileAndMemReader::SET);
 
         // Read track data
@@ -2730,7 +2731,8 @@ bool BW_MidiSequencer::parseCMF(FileAndMemReader &fr)
         size_t trackLength;
         size_t pos = fr.tell();
         fr.seek(0, FileAndMemReader::END);
-        trackLength = fr.tell() - pos;
+        // A file stream may have been positioned behind its end by an offset taken from the header
+        trackLength = (fr.tell() > pos) ? (fr.tell() - pos) : 0;
         fr.seek(static_cast<long>(pos), FileAndMemReader::SET);
 
         // Read track data
@@ -2799,7 +2801,8 @@ bool BW_MidiSequencer::parseGMF(FileAndMemReader &fr)
         size_t trackLength;
         size_t pos = fr.tell();
         fr.seek(0, FileAndMemReader::END);
-        trackLength = fr.tell() - pos;
+        // A file stream may have been positioned behind its end by an offset taken from the header
+        trackLength = (fr.tell() > pos) ? (fr.tell() - pos) : 0;
         fr.seek(static_cast<long>(pos), FileAndMemReader::SET);
 
         // Read track data
